@@ -1,6 +1,6 @@
 #!/bin/bash
 # runs the quick check of each given property (default: all with contracts) and prints one summary line each
-props="${@:-C04 C09 C13 C16 C17 C19}"
+props="${@:-C02 C03 C04 C05 C06 C07 C08 C09 C10 C12 C13 C15 C16 C17 C18 C19 C20}"
 for p in $props; do
   out=$(/verif/bin/check $p --tier quick 2>&1); rc=$?
   echo "$p rc=$rc $(echo "$out" | tail -1)"
